@@ -315,3 +315,5 @@ def run(ctx):
                'is skipped when `%s` is false: a non-zero hook result leaves the descriptor open / the memory allocated while sf_close frees the handle' % bad[0][:60]), None)
     ctx.require(nru >= 20, 'only %d releases found in psf_close' % nru)
 
+    from engine.run import borrow
+    borrow(ctx, 'C15', ['FAIL-NOWRITE'], 'a failing write-mode open must still run the write-side clean-up of the codec it has set up (temporary file, stream) before it leaves')
